@@ -275,4 +275,39 @@ theorem pool_s2n_sound (e : Epoch) (ops : List PoolOp) (s h : Nat) (st : SlotSta
   have hc := (poolRun_closed (sentSound_closed e) ops { epoch := e } ⟨rfl, SlotsSat.init e _⟩).2 s st hg h hs
   exact ⟨hc.1, hc.2.2, pool_parent_flag_sound e ops s h st hg hc.2.1⟩
 
+/-- **Pool-level completeness of safe-to-skip** (no parent involved, so no glue beyond "the pool applies slot-level
+    operations"): in every reachable pool, every slot state in which the node notarized some block and
+    `skip + Σ notar − max notar ≥ 40 %` has its safe-to-skip flag set. -/
+theorem pool_s2s_complete (e : Epoch) (ops : List PoolOp) (s : Nat) (st : SlotState) :
+    (poolRun { epoch := e } ops).1.getSlot s = some st → S2SCond e st → st.sentS2S = true := by
+  intro hg hc
+  exact (poolRun_closed (sinv_closed e) ops { epoch := e } ⟨rfl, SlotsSat.init e _⟩).2 s st hg hc
+
+/-! non-vacuity of the pool-level theorems: 5 equal validators, node 0. The node skips slot 3, two others notarize block
+    `(3,7)` (40 %), the block is registered with parent `(2,5)`; the parent's certificate arrives last — as a received
+    *fast-finalization* certificate (the D21 case) — and wakes the waiting child: the flag is set, safe-to-notar is raised.
+    Second run: the certificate (notar-fallback) is there first, the block registration is what arrives last. -/
+example :
+    let e : Epoch := { stakes := [1, 1, 1, 1, 1], own := 0 }
+    let pre : List PoolOp := [.vote ⟨.skip, 3, 0, 0⟩, .vote ⟨.notar, 3, 7, 1⟩, .vote ⟨.notar, 3, 7, 2⟩]
+    let post : List PoolOp := [.cert ⟨.ff, 2, 5, [1, 2, 3, 4], [], 4⟩]
+    let q := (poolRun { epoch := e } pre).1
+    let mid := (poolRun { epoch := e } (pre ++ [.block (3, 7) (2, 5)])).1
+    let r := poolRun { epoch := e } (pre ++ .block (3, 7) (2, 5) :: post)
+    (match Finality.addParent q.fin (3, 7) (2, 5) with | .ok _ _ => true | .panic => false) = true ∧
+    r.1.fin.first ≤ 3 ∧
+    (mid.getSlot 3).map (fun st => (st.parents.lookup 7, st.sent)) = some (some false, []) ∧ kidsOf mid (2, 5) = [(3, 7)] ∧
+    (r.1.getSlot 2).map (·.isNfOrStronger 5) = some true ∧
+    (r.1.getSlot 3).map (fun st => (st.parents.lookup 7, st.sent)) = some (some true, [7]) ∧
+    Event.s2n 3 7 ∈ r.2 := by decide +kernel
+
+example :
+    let e : Epoch := { stakes := [1, 1, 1, 1, 1], own := 0 }
+    let pre : List PoolOp := [.cert ⟨.nf, 2, 5, [1, 2], [3], 3⟩, .vote ⟨.skip, 3, 0, 0⟩, .vote ⟨.notar, 3, 7, 1⟩,
+      .vote ⟨.notar, 3, 7, 2⟩]
+    let r := poolRun { epoch := e } (pre ++ [.block (3, 7) (2, 5)])
+    (r.1.getSlot 2).map (·.isNfOrStronger 5) = some true ∧
+    (r.1.getSlot 3).map (fun st => (st.parents.lookup 7, st.sent)) = some (some true, [7]) ∧
+    Event.s2n 3 7 ∈ r.2 := by decide +kernel
+
 end AgModel.Pool
